@@ -411,7 +411,8 @@ func Leaves() []Gen {
 		bf = append(bf, val(big.NewFloat(f), fmt.Sprintf("bigfloat%d", i)))
 	}
 	pf, _, _ := big.ParseFloat("3.14159265358979323846264338327950288419716939937510582097494459", 10, 200, big.ToNearestEven)
-	bf = append(bf, val(pf, "bigfloat-prec200"), val((*big.Float)(nil), "nil"))
+	bf = append(bf, val(pf, "bigfloat-prec200"), val((*big.Float)(nil), "nil"),
+		val(new(big.Float).SetInf(false), "bigfloat+inf"), val(new(big.Float).SetInf(true), "bigfloat-inf"))
 	add("*big.Float", reflect.TypeOf((*big.Float)(nil)), bf)
 	for i, r := range []*big.Rat{big.NewRat(0, 1), big.NewRat(1, 3), big.NewRat(4, 2), big.NewRat(-7, 5), new(big.Rat).SetFrac(bigInts()[4], big.NewInt(7))} {
 		br = append(br, val(r, fmt.Sprintf("bigrat%d", i)))
@@ -424,6 +425,7 @@ func Leaves() []Gen {
 	for i, x := range timeVals() {
 		tv = append(tv, val(x, timeClass(i)))
 	}
+	tv = append(tv, ExtremeTimes()...) // years the date's four digits cannot hold: to be refused with an error
 	add("time.Time", reflect.TypeOf(time.Time{}), tv)
 	u1 := uuid.MustParse("01234567-89ab-cdef-0123-456789abcdef")
 	add("uuid.UUID", reflect.TypeOf(uuid.UUID{}), []Val{val(uuid.UUID{}, "zero"), val(u1, "mixed"), val(uuid.MustParse("ffffffff-ffff-ffff-ffff-ffffffffffff"), "ff")})
@@ -489,6 +491,14 @@ func Slice(g Gen) Gen {
 		all = reflect.Append(all, g.Vals[len(g.Vals)-1].V)
 	}
 	out.Vals = append(out.Vals, Val{all, "all+repeat"})
+	// more elements than a decoder pre-allocates (4096), and not a power-of-two multiple of that
+	if (g.Name == "int" || g.Name == "string" || g.Name == "float64") && len(g.Vals) > 0 {
+		long := reflect.MakeSlice(t, 4100, 4100)
+		for i := 0; i < 4100; i++ {
+			long.Index(i).Set(g.Vals[i%len(g.Vals)].V)
+		}
+		out.Vals = append(out.Vals, Val{long, "n4100"})
+	}
 	return out
 }
 
